@@ -43,3 +43,35 @@ Definition upload_bytes (bs : bytes) : option upload_view :=
           uv_written := if n <=? len b5 then takeN n b5 else b5;
           uv_complete := n <=? len b5 |}
   end end end end end.
+
+(* ---- the resource fork: with a fork count of 3 in the flattened-file header the upload is complete only when a
+        third fork header (16 bytes) and as many bytes as it declares have arrived as well ---- *)
+Definition three_forks (h : bytes) : bool := bytes_eqb (firstn 2 (skipn 22 h)) [0; 3].
+Definition upload_done_chunks (chunks : list bytes) : bool :=
+  match read_full 16 chunks with None => false | Some (pre, c1) =>
+  match read_full 24 c1 with None => false | Some (h, c2) =>
+  match read_full 16 c2 with None => false | Some (ih, c3) =>
+  match read_full (N.to_nat (size_of_forkhdr ih)) c3 with None => false | Some (info, c4) =>
+  match read_full 16 c4 with None => false | Some (dh, c5) =>
+  let '(_, c6, ok) := copy_n (N.to_nat (size_of_forkhdr dh)) c5 in
+  ok && (if three_forks h then
+           match read_full 16 c6 with
+           | None => false
+           | Some (rh, c7) => let '(_, _, ok2) := copy_n (N.to_nat (size_of_forkhdr rh)) c7 in ok2
+           end
+         else true)
+  end end end end end.
+Definition upload_done_bytes (bs : bytes) : bool :=
+  match take_exact 16 bs with None => false | Some (pre, b1) =>
+  match take_exact 24 b1 with None => false | Some (h, b2) =>
+  match take_exact 16 b2 with None => false | Some (ih, b3) =>
+  match take_exact (size_of_forkhdr ih) b3 with None => false | Some (info, b4) =>
+  match take_exact 16 b4 with None => false | Some (dh, b5) =>
+  match take_exact (size_of_forkhdr dh) b5 with None => false | Some (_, b6) =>
+  if three_forks h then
+    match take_exact 16 b6 with
+    | None => false
+    | Some (rh, b7) => size_of_forkhdr rh <=? len b7
+    end
+  else true
+  end end end end end end.
